@@ -543,6 +543,13 @@ def c16_colocate(R):
     tree = R.tree
     m = tree.mod("claripy/frontend/mixin/sat_cache_mixin.py")
     add = tree.func(m.path, "SatCacheMixin._add")
+    # the local that carries the decision: `if D is False: self._cached_satness = False`
+    decision = {"self._cached_satness"}
+    for a, kind, node, val in util.attr_writes(add, "self"):
+        if a == "_cached_satness" and kind == "assign" and isinstance(val, ast.Constant) and val.value is False:
+            for t, pol in guards.guards_of(node):
+                if pol and isinstance(t, ast.Compare) and isinstance(t.ops[0], ast.Is) and isinstance(t.left, ast.Name) and ast.unparse(t.comparators[0]) == "False":
+                    decision.add(t.left.id)
     for a, kind, node, val in util.attr_writes(add, "self"):
         if a == "_cached_unsat_core" and kind == "assign" and not (isinstance(val, ast.Constant) and val.value is None):
             blk = node._parent
@@ -550,7 +557,7 @@ def c16_colocate(R):
                 s
                 for s in getattr(blk, "body", [])
                 if isinstance(s, ast.Assign)
-                and ast.unparse(s.targets[0]) in ("cached_satness", "self._cached_satness")
+                and ast.unparse(s.targets[0]) in decision
                 and isinstance(s.value, ast.Constant)
                 and s.value.value is False
             ]
